@@ -133,6 +133,9 @@ def run(ctx):
     c11.slice_rule(ctx)
     c11.varint_rule(ctx)
     c11.fixedbuf_rule(ctx)
+    # a map entry is written as step, key, value whichever way it is presented (shared with C02)
+    from .c02 import mapkind_rule
+    mapkind_rule(ctx)
     # what the duration / decimal readers present is what was written (shared with C03, which owns them)
     from . import c03
     c03.duration_rule(ctx)
